@@ -202,6 +202,14 @@ def run(ctx):
                 if kind == "ioerr" and not thorough and k % 3:
                     continue
                 scen.append(dict(sc, id="%s@%d/%s" % (sc["id"], k, kind), fault=dict(kind=kind, at=k)))
+            # single-bit flips of the other seven bits: the three major-type bits turn an item into one of another CBOR
+            # type (a map header into a negative integer: a complete, well-formed message with a short payload of the
+            # wrong type), the low bits change lengths and values.  Thorough: all of them at every offset; quick: the
+            # top bit everywhere and one more per offset, rotating with the offset and the seed.
+            masks = (0x80, 0x40, 0x20, 0x10, 0x08, 0x04, 0x02) if thorough else \
+                ((0x80, (0x40, 0x20, 0x10, 0x08, 0x04, 0x02)[(k // 2 + ctx.seed) % 6]) if k % 2 == 0 else (0x80,))
+            for mk in masks:
+                scen.append(dict(sc, id="%s@%d/bit%02x" % (sc["id"], k, mk), fault=dict(kind="bitflip", at=k, mask=mk)))
         # the client's writes fail from position i on
         for i in range(len(sc["ops"]) + 1):
             ops = list(sc["ops"])
